@@ -50,8 +50,9 @@ theorem registeredRec_some (s : Store) (a : Addr) (r : Rec) (h : registeredRec s
     · cases h
 
 theorem Addr.val_inj {a b : Addr} : a.val = b.val ↔ a = b := by
-  cases a; cases b
-  simp [Addr.val]
+  obtain ⟨ip, port, ext⟩ := a
+  obtain ⟨ip', port', ext'⟩ := b
+  cases ext <;> cases ext' <;> simp [Addr.val]
 
 /-! ## datagram shape -/
 
@@ -250,10 +251,12 @@ theorem handleRdacRequest_no_overflow (cfg : Cfg) (s : Store) (a : Addr) (data :
       · intro e; cases e
       · try dsimp only
         split
-        · rename_i e' he'
-          intro e; cases e
-          exact redirectPacket_ne_overflow _ _ h he'
         · intro e; cases e
+        · split
+          · rename_i e' he'
+            intro e; cases e
+            exact redirectPacket_ne_overflow _ _ h he'
+          · intro e; cases e
 
 theorem handleDmrRequest_no_overflow (cfg : Cfg) {s : Store} (hinv : Inv s) (a : Addr) (data : Bytes)
     (h : a.port < 65536) : (handleDmrRequest cfg s a data).2.2 ≠ .err .overflowError := by
@@ -273,15 +276,95 @@ theorem handleDmrRequest_no_overflow (cfg : Cfg) {s : Store} (hinv : Inv s) (a :
       · try dsimp only
         split
         · intro e; cases e
-        · rename_i port hport
-          rw [haddr] at hport
-          simp only [Addr.val, portOf, Option.some.injEq] at hport
-          subst hport
-          split
-          · rename_i e' he'
-            intro e; cases e
-            exact redirectPacket_ne_overflow _ _ h he'
+        · split
           · intro e; cases e
+          · rename_i port hport
+            rw [haddr] at hport
+            have hp : port = a.port := by
+              obtain ⟨ip, prt, ext⟩ := a
+              cases ext <;> simp only [Addr.val, portOf, Option.some.injEq] at hport <;> exact hport.symm
+            subst hp
+            split
+            · rename_i e' he'
+              intro e; cases e
+              exact redirectPacket_ne_overflow _ _ h he'
+            · intro e; cases e
+
+/-! ## `TypeError`: only the eagerly formatted log message of the two start-up handlers -/
+
+theorem incByte_ne_typeError (d : Bytes) (i : Nat) : incByte d i ≠ .error .typeError := by
+  unfold incByte
+  split
+  · intro e; cases e
+  · split <;> (intro e; cases e)
+
+theorem redirectPacket_ne_typeError (d : Bytes) (port : Nat) : redirectPacket d port ≠ .error .typeError := by
+  unfold redirectPacket
+  split
+  · intro e; cases e
+  · split <;> (intro e; cases e)
+
+theorem handleRdacRequest_typeError (cfg : Cfg) (s : Store) (a : Addr) (data : Bytes)
+    (he : (handleRdacRequest cfg s a data).2.2 = .err .typeError) :
+    a.isPair = false ∧ (handleRdacRequest cfg s a data).2.1.length = 1 := by
+  revert he
+  unfold handleRdacRequest
+  split
+  · intro he; cases he
+  · split
+    · rename_i e hx; intro he; cases he; exact absurd hx (incByte_ne_typeError _ _)
+    · split
+      · intro he; cases he
+      · try dsimp only
+        split
+        · rename_i hp; intro _; exact ⟨hp, rfl⟩
+        · split
+          · rename_i e hx; intro he; cases he; exact absurd hx (redirectPacket_ne_typeError _ _)
+          · intro he; cases he
+
+theorem handleDmrRequest_typeError (cfg : Cfg) (s : Store) (a : Addr) (data : Bytes)
+    (he : (handleDmrRequest cfg s a data).2.2 = .err .typeError) :
+    a.isPair = false ∧ (handleDmrRequest cfg s a data).2.1.length = 1 := by
+  revert he
+  unfold handleDmrRequest
+  split
+  · intro he; cases he
+  · try dsimp only
+    split
+    · rename_i e hx; intro he; cases he; exact absurd hx (incByte_ne_typeError _ _)
+    · split
+      · intro he; cases he
+      · try dsimp only
+        split
+        · rename_i hp; intro _; exact ⟨hp, rfl⟩
+        · split
+          · intro he; cases he
+          · split
+            · rename_i e hx; intro he; cases he; exact absurd hx (redirectPacket_ne_typeError _ _)
+            · intro he; cases he
+
+theorem handleRegistration_ne_typeError (s : Store) (a : Addr) (data : Bytes) (f : Bool) :
+    (handleRegistration s a data f).2.2 ≠ .err .typeError := by
+  unfold handleRegistration
+  split
+  · intro he; cases he
+  · split
+    · rename_i e hx; intro he; cases he; exact absurd hx (incByte_ne_typeError _ _)
+    · split
+      · intro he; cases he
+      · try dsimp only
+        split
+        · split
+          · split <;> (intro he; cases he)
+          · intro he; cases he
+        · intro he; cases he
+
+theorem handlePing_ne_typeError (s : Store) (a : Addr) (data : Bytes) :
+    (handlePing s a data).2.2 ≠ .err .typeError := by
+  unfold handlePing
+  split
+  · intro he; cases he
+  · split <;> (intro he; cases he)
 
 /-! ## invariant and the registered flag along histories -/
 
